@@ -346,6 +346,24 @@ def r11_leap_polarity(ctx):
             f_attrs = [(a, x) for a, x in _cal_attrs_in(ctx, f, fb)
                        if a in pairs or a[:-5] in pairs]
             if not t_attrs and not f_attrs:
+                # a leap-year test that selects no table: does the function
+                # read a common-year table whose leap partner it ignores?
+                every = [a for a, x in _cal_attrs_in(ctx, f, [f.node])]
+                lonely = sorted({a for a in every if a in pairs and
+                                 (a + "_LEAP") not in every})
+                if lonely:
+                    rep.anchor(rule, "leap-selected tables")
+                    rep.violation(
+                        rule, ctx.fkey(f, test, "ignores-leap-table"),
+                        f.loc(n),
+                        "%s tests for a leap year but reads only %s and "
+                        "never %s: the leap-year lengths of the active "
+                        "calendar mode are replaced by hard-wired "
+                        "arithmetic (wrong for the 360/365/366-day "
+                        "calendars, whose leap tables equal their common "
+                        "ones)" % (f.qual, lonely, [a + "_LEAP"
+                                                    for a in lonely]),
+                        _props_for(f) + ("C15",))
                 continue
             if not positive:
                 t_attrs, f_attrs = f_attrs, t_attrs
@@ -762,3 +780,165 @@ def _method_self_writes(ctx):
 
 RULES = {"R09": r09_carry_agree, "R10": r10_field_len,
          "R11": r11_leap_polarity}
+
+
+# -------------------------------------------------------------------- R34
+# A length (leap flag, month/year length, table row) computed from X._year /
+# X._month_of_year and kept in a local goes stale when that field is written
+# afterwards; bounding a date field of X with it then uses the length of the
+# wrong month/year.  Flow-sensitive def-use over the structured interpreter.
+from ..fdai import Engine, Plugin, freeze, thaw   # noqa: E402
+
+YM = ("_year", "_month_of_year")
+
+
+class _FreshPlugin(Plugin):
+    def __init__(self, ctx, f):
+        self.ctx = ctx
+        self.f = f
+        self.uses = []      # (node, local, stale deps)
+
+    # value of a local: frozenset of (base text, field) it was computed from;
+    # "$stale:<local>" -> frozenset of deps written since
+    def _deps(self, e, d):
+        deps = set()
+        for n in ast.walk(e):
+            if isinstance(n, ast.Attribute) and n.attr in YM and \
+                    isinstance(n.ctx, ast.Load) and is_tp_attr(
+                        self.ctx, self.f, n):
+                deps.add((U(n.value), n.attr))
+            elif isinstance(n, ast.Name) and isinstance(n.ctx, ast.Load):
+                v = d.get(n.id)
+                if isinstance(v, frozenset):
+                    deps |= v
+        return deps
+
+    def _control_deps(self, st, d):
+        deps = set()
+        for a in ancestors(st):
+            if a is self.f.node:
+                break
+            if isinstance(a, ast.If):
+                deps |= self._deps(a.test, d)
+        return deps
+
+    def eval(self, e, d):
+        if e is not None:
+            self._note_uses(e, d)
+        return None
+
+    def _note_uses(self, e, d):
+        """A comparison / assignment of a date field against a stale local."""
+        for n in ast.walk(e):
+            if isinstance(n, ast.Compare) and len(n.ops) == 1:
+                a, b = n.left, n.comparators[0]
+                for fld, other in ((a, b), (b, a)):
+                    if isinstance(fld, ast.Attribute) and \
+                            fld.attr in DATE_FIELDS and is_tp_attr(
+                                self.ctx, self.f, fld):
+                        self._check(n, fld, other, d)
+
+    def _check(self, node, fld, bound, d):
+        base = U(fld.value)
+        for n in ast.walk(bound):
+            if isinstance(n, ast.Name):
+                st = d.get("$stale:" + n.id, frozenset())
+                bad = {x for x in st if x[0] == base}
+                if bad:
+                    self.uses.append((node, n.id, fld, frozenset(bad)))
+
+    def assign(self, t, v, d, st):
+        val = getattr(st, "value", None)
+        if isinstance(t, ast.Name):
+            deps = set()
+            if val is not None:
+                deps = self._deps(val, d)
+                # staleness is inherited from the locals read
+                inherited = set()
+                for n in ast.walk(val):
+                    if isinstance(n, ast.Name):
+                        inherited |= d.get("$stale:" + n.id, frozenset())
+                deps |= self._control_deps(st, d)
+                for a in ancestors(st):
+                    if a is self.f.node:
+                        break
+                    if isinstance(a, ast.If):
+                        for n in ast.walk(a.test):
+                            if isinstance(n, ast.Name):
+                                inherited |= d.get("$stale:" + n.id,
+                                                   frozenset())
+                d["$stale:" + t.id] = frozenset(inherited)
+            d[t.id] = frozenset(deps)
+        elif isinstance(t, (ast.Tuple, ast.List)):
+            for x in t.elts:
+                self.assign(x, None, d, st)
+        elif isinstance(t, ast.Attribute) and is_tp_attr(self.ctx, self.f, t):
+            if val is not None and t.attr in DATE_FIELDS and \
+                    t.attr not in YM:
+                self._check(st, t, val, d)
+            if t.attr in YM:
+                self._written(U(t.value), t.attr, d)
+
+    def augassign(self, st, d):
+        t = st.target
+        if isinstance(t, ast.Attribute) and is_tp_attr(self.ctx, self.f, t) \
+                and t.attr in YM:
+            self._written(U(t.value), t.attr, d)
+        elif isinstance(t, ast.Name):
+            d[t.id] = frozenset(self._deps(st.value, d) |
+                                (d.get(t.id) or frozenset()))
+
+    def _written(self, base, attr, d):
+        for k, v in list(d.items()):
+            if isinstance(v, frozenset) and not k.startswith("$") and \
+                    (base, attr) in v:
+                d["$stale:" + k] = d.get("$stale:" + k, frozenset()) | {
+                    (base, attr)}
+
+    def refine(self, test, d):
+        self._note_uses(test, d)
+        return [d], [dict(d)]
+
+    def for_target(self, stmt, d):
+        self.assign(stmt.target, None, d, stmt)
+
+
+def r34_fresh_length(ctx):
+    rep = ctx.rep
+    rule = "R34.fresh-length"
+    tp = ctx.model.cls("TimePoint")
+    rep.need_anchor(rule, "methods writing year/month")
+    for name, f in sorted(tp.methods.items()):
+        writes = [n for n in walk_no_nested(f.node)
+                  if isinstance(n, (ast.Assign, ast.AugAssign)) and any(
+                      isinstance(t, ast.Attribute) and t.attr in YM
+                      for t in (n.targets if isinstance(n, ast.Assign)
+                                else [n.target]))]
+        if not writes or name == "__init__":
+            continue
+        rep.anchor(rule, "methods writing year/month")
+        p = _FreshPlugin(ctx, f)
+        Engine(p).run(f.node.body, {freeze({})})
+        props = _r10_props(f, "_day_of_month")
+        seen = set()
+        for node, local, fld, deps in p.uses:
+            k = (id(node), local)
+            if k in seen:
+                continue
+            seen.add(k)
+            rep.violation(
+                rule, ctx.fkey(f, node, "stale:" + local), f.loc(node),
+                "%s bounds %s with `%s`, which was computed from %s before "
+                "that field was changed on this path: the length of the "
+                "*previous* month/year is applied (e.g. the leap table of "
+                "the year just left)" % (
+                    f.qual, U(fld), local,
+                    ", ".join("%s.%s" % x for x in sorted(deps))), props)
+        if not seen:
+            rep.ok(rule, ctx.fkey(f, None, "fresh"), f.loc(),
+                   "every length that bounds a date field in %s is computed "
+                   "after the last write to the year/month it depends on "
+                   "(%d writes)" % (name, len(writes)), props)
+
+
+RULES["R34"] = r34_fresh_length
